@@ -3,8 +3,8 @@ import EupsModel.Model.PathAlg
 
 * `Table.expandEupsVariables` (python/eups/table.py): the product macros `${PRODUCTS}`, `${PRODUCT_DIR}`,
   `$?{PRODUCT_DIR}`, `${PRODUCT_DIR_EXTRA}`, `${<NAME>_DIR}`, `${PRODUCT_FLAVOR}`, `${PRODUCT_NAME}`,
-  `${PRODUCT_VERSION}`, `${UPS_DIR}`, applied to every argument of every action before anything is executed
-  (`${EUPS_PATH[n]}` is not modelled; the generator does not write it);
+  `${PRODUCT_VERSION}`, `${UPS_DIR}`, `${EUPS_PATH[n]}`, applied to every argument of every action before anything
+  is executed;
 * the bookkeeping of `--force` (`Eups.oldEnviron[var] = None`, `del Eups.oldAliases[key]`);
 * `execute_addAlias` with `Eups.setAlias` / `Eups.unsetAlias`;
 * `execute_envUnset` (deletes straight from `os.environ`).
@@ -112,6 +112,61 @@ def expandMacros (p : ProdInfo) (value : Str) : Str :=
     | none => value
   replaceAll mUPS p.upsDir value
 
+/-! ### `${EUPS_PATH[n]}` -/
+
+def mEUPSPATH : Str := Str.ofString "${EUPS_PATH}"
+def pEUPSPATH : Str := Str.ofString "${EUPS_PATH["
+
+/-- the longest prefix of ASCII digits (`\d+`; other Unicode digits are outside the generator) -/
+def spanDigits : Str → Str × Str
+  | [] => ([], [])
+  | c :: cs => if Str.isDigit c then
+      let (a, b) := spanDigits cs
+      (c :: a, b)
+    else ([], c :: cs)
+
+/-- `\${EUPS_PATH\[(\d+)\]}` at the head of `s`: (the index, what follows the reference) -/
+def eupsPathAt (s : Str) : Option (Nat × Str) :=
+  if pEUPSPATH.isPrefixOf s then
+    match spanDigits (s.drop pEUPSPATH.length) with
+    | (d :: ds, 93 :: 125 :: rest) => some (Str.toNat (d :: ds), rest)
+    | _ => none
+  else none
+
+def hasEupsPathRef : Str → Bool
+  | [] => false
+  | c :: cs => (eupsPathAt (c :: cs)).isSome || hasEupsPathRef cs
+
+/-- every subscripted reference is replaced by its own element of `$EUPS_PATH`; an index past the end leaves
+`${EUPS_PATH}` (repair of D122: the pinned code replaced the *whole argument* by the element of the first reference) -/
+def subEupsPath (elems : List Str) : Nat → Str → Str
+  | 0, s => s
+  | _ + 1, [] => []
+  | f + 1, c :: cs => match eupsPathAt (c :: cs) with
+    | some (i, rest) => elems.getD i mEUPSPATH ++ subEupsPath elems f rest
+    | none => c :: subEupsPath elems f cs
+
+/-- the pinned rule, for the record (index in range; `none`: out of range, not modelled): the element *is* the
+new argument, whatever stood around the reference -/
+def subEupsPathPinned (elems : List Str) (value : Str) : Option Str :=
+  let rec first : Str → Option Nat
+    | [] => none
+    | c :: cs => match eupsPathAt (c :: cs) with
+      | some (i, _) => some i
+      | none => first cs
+  match first value with
+  | some i => elems[i]?
+  | none => some value
+
+/-- the whole of `Table.expandEupsVariables` on one argument; `eupsPath` is `os.environ.get("EUPS_PATH")` -/
+def expandArg (p : ProdInfo) (eupsPath : Option Str) (arg : Str) : Str :=
+  let value := expandMacros p arg
+  if hasEupsPathRef value then
+    match eupsPath with
+    | none => arg          -- `continue`: the argument keeps its text as written (all of it)
+    | some ep => subEupsPath (split [58] ep) (value.length + 1) value
+  else value
+
 /-- `Table._rewrite`: the older synonyms of the macros are rewritten, line by line, when a table file is read
 (so they reach only actions that come from a file) -/
 def legacySyn (s : Str) : Str :=
@@ -207,6 +262,9 @@ def Act.mapArgs (f : Str → Str) : Act → Act
 /-- macro expansion of every argument of an action (`expandEupsVariables` runs over `a.args`) -/
 def Act.expandMacros (p : ProdInfo) (a : Act) : Act := a.mapArgs (PathAct.expandMacros p)
 
+/-- … including the `${EUPS_PATH[n]}` step -/
+def Act.expandAll (p : ProdInfo) (eupsPath : Option Str) (a : Act) : Act := a.mapArgs (expandArg p eupsPath)
+
 /-- `Table._read` keeps an `envUnset` line only for the product's own `<NAME>_DIR` (`PRODUCT_DIR` is renamed to it);
 any other variable's line is dropped -/
 def readFilter (name : Str) (a : Act) : Option Act :=
@@ -219,10 +277,10 @@ def readFilter (name : Str) (a : Act) : Option Act :=
 
 /-- the actions of a table file as `Product.getTable` hands them out: synonyms rewritten, `envUnset` lines filtered,
 macros expanded -/
-def fromFile (p : ProdInfo) (acts : List (Bool × Act)) : List (Bool × Act) :=
+def fromFile (p : ProdInfo) (eupsPath : Option Str) (acts : List (Bool × Act)) : List (Bool × Act) :=
   acts.filterMap fun (fwd, a) =>
     match readFilter p.name (a.mapArgs legacySyn) with
-    | some a' => some (fwd, a'.expandMacros p)
+    | some a' => some (fwd, a'.expandAll p eupsPath)
     | none => none
 
 /-- a run: the actions with their directions, in order; stops at the first error -/
